@@ -65,6 +65,16 @@ theorem span_reparse_argument_all (fl : Flags) (s : Text) (d : Document) (h : pa
   obtain ⟨c, hc⟩ := hwf (wf_of_mem fl s d h x hx)
   exact span_reparse_argument fl s d h x hx arg hs c hc a b hloc
 
+/-- every variable definition of every operation (and fragment, with `experimental_fragment_variables`): `query(σ⏎){a}` -/
+theorem span_reparse_variable_definition_all (fl : Flags) (s : Text) (d : Document) (h : parseText fl s = some d) :
+    ∀ x ∈ d.definitions, ∀ vd ∈ x.vdefs, ∀ a b, vd.loc = some (a, b) →
+      a ≤ b ∧ b ≤ s.length ∧
+      parseText fl ([113, 117, 101, 114, 121, 40] ++ slice s a b ++ [10, 41, 123, 97, 125]) =
+        some (queryDoc ((vd.mapLoc (locDown a)).mapLoc (locUp 6)) (b - a)) := by
+  intro x hx vd hvd a b hloc
+  obtain ⟨hs, hwf⟩ := definition_vdefs fl x vd hvd
+  exact span_reparse_variable_definition fl s d h x hx vd hs (hwf (wf_of_mem fl s d h x hx)) a b hloc
+
 /-! ### type-system definitions and extensions -/
 
 /-- every directive of every type-system definition / extension (`Definition.tdirs`: on the definition, on its field
@@ -121,6 +131,8 @@ example : (parseText {} qdoc).map (fun d => d.definitions.map (fun x => x.ssets.
     some [[some (14, 34), some (30, 33)]] := by decide
 example : (parseText {} qdoc).map (fun d => d.definitions.map (fun x => x.dirs.map (·.loc))) =
     some [[some (11, 13), some (24, 26)]] := by decide
+example : (parseText {} qdoc).map (fun d => d.definitions.map (fun x => x.vdefs.map (·.loc))) =
+    some [[some (6, 13)]] := by decide
 example : (parseText {} qdoc).map (fun d => d.definitions.map (fun x => x.args.map (·.loc))) =
     some [[some (17, 22)]] := by decide
 
